@@ -46,7 +46,7 @@ Functions those changes edited (choose code elsewhere if you can): {funcs}.
 {extra}
 """
 
-EXTRA = """Find a DIFFERENT mechanism with a DIFFERENT kind of trigger. Read widely first (lexer, parser, ast, object, evaluator, built-in functions, template loading in the root package, fail/, config/, ctx/, token/, utils/), including how the pieces call each other, and read the statement of the property sentence by sentence and its "Quantified over" line dimension by dimension: pick a clause, a listed construct, a listed case or a dimension of the quantifier that none of the earlier changes attacked, or attack an attacked clause through a construct, an API entry point (EvaluateString, EvaluateFile, NewTemplate, Template.String, Template.Response, Configure, the Register*Func family) or a configuration that none of them used. Prefer a change whose trigger somebody testing this property with randomly generated templates, data and call sequences would plausibly NOT generate: a legal but unusual spelling or clause form, a rarely used built-in, directive, option or API entry point, a combination of two or three constructs, a value at a boundary of a type or a length, a name or path with an unusual shape, a particular order or repetition of calls, a file system detail, a less common Go type in the data, a particular nesting depth or count (the third of something, more than N of something), a particular position (first, last, only) of something, a size threshold. It must be something a maintainer would plausibly do (a small feature or convenience with one corner wrong, a helper extracted that is not equivalent for one caller, a data structure change, a reordered check, a library call with slightly different semantics, an early return or fast path, a cache, a 'simplification', a fixed-size buffer or limit, an error message 'improvement'). The change must still break the stated property for a whole class of inputs (say which), compile, and keep the existing suite green. In this round prefer a change whose trigger lies in HOW THE TEMPLATE TEXT IS WRITTEN rather than in what it means: two spellings of the same program that must behave alike, of which your change breaks one. Read the lexer and the parser closely, and the documentation that ships with the project, for every freedom the syntax gives: white space, tabs, line breaks and CR LF inside {{ }}, inside directive headers, between a directive's name and its parenthesis, between the clauses of @for, around commas, colons, dots, operators, semicolons and parentheses; comments next to or inside constructs; single versus double quotes and escapes inside strings; redundant parentheses; trailing or repeated separators where they are legal; identifiers with digits, underscores, upper case or the text of a keyword or directive name as a prefix (iffy, endless, inner, trueValue, nilly, loopy, forEach); numbers written with leading zeros, a leading minus, a trailing .0; object literals with quoted keys or shorthand keys; directive-like text that is not a directive (an e-mail address, @media, @endif, @ at the end of the file); braces in text ({ }, }}, a lone {); the position of a construct on its line or in the file (first byte, last byte, no final newline, only construct of the file); the length of a token. The change must still break the stated property (say which clause) for a whole class of spellings, while the usual spelling keeps working."""
+EXTRA = """Find a DIFFERENT mechanism with a DIFFERENT kind of trigger. Read widely first (lexer, parser, ast, object, evaluator, built-in functions, template loading in the root package, fail/, config/, ctx/, token/, utils/), including how the pieces call each other, and read the statement of the property sentence by sentence and its "Quantified over" line dimension by dimension: pick a clause, a listed construct, a listed case or a dimension of the quantifier that none of the earlier changes attacked, or attack an attacked clause through a construct, an API entry point (EvaluateString, EvaluateFile, NewTemplate, Template.String, Template.Response, Configure, the Register*Func family) or a configuration that none of them used. Prefer a change whose trigger somebody testing this property with randomly generated templates, data and call sequences would plausibly NOT generate: a legal but unusual spelling or clause form, a rarely used built-in, directive, option or API entry point, a combination of two or three constructs, a value at a boundary of a type or a length, a name or path with an unusual shape, a particular order or repetition of calls, a file system detail, a less common Go type in the data, a particular nesting depth or count (the third of something, more than N of something), a particular position (first, last, only) of something, a size threshold. It must be something a maintainer would plausibly do (a small feature or convenience with one corner wrong, a helper extracted that is not equivalent for one caller, a data structure change, a reordered check, a library call with slightly different semantics, an early return or fast path, a cache, a 'simplification', a fixed-size buffer or limit, an error message 'improvement'). The change must still break the stated property for a whole class of inputs (say which), compile, and keep the existing suite green. In this round prefer a change that shows only on a FAILING PATH of the property: read its clauses about faults sentence by sentence - what must be reported as an error, that an error comes without output (or with exactly the error page), which of several simultaneous faults is the one reported, what the error names (a file, a line, a component, a function, a type), that a failing call leaves data, configuration and loaded templates as they were, that a fault in one place (an argument, a branch not taken, a later pass of a loop, a file that is not rendered) is or is not a fault of the call - and look for code where a fault is detected late, converted (error object to string, to nil, to false, to an empty value), swallowed by a construct that inspects its operand (a ternary, a condition, a @dump, a built-in like then(), contains() or len(), string concatenation, array or object construction, a comparison), raised for a legal input by an over-eager validation, or reported with the right text but the wrong kind (an error where output was due, output where an error was due, a panic, a nil error with empty output, an error AND output). A successful path that is only reached after a failure was handled counts as well (the custom error page, the call after a failed call, the pass after a pass that hit @continueIf on a failing condition). The change must keep every fault-free use of the library working, and it must be a fault class that plausibly occurs (an undefined name, a mistyped operand, a missing file, a division by zero, an index out of range, an unsupported value in the data, an unknown function), not an exotic one."""
 
 
 def funcs_of(patch):
